@@ -311,6 +311,9 @@ type c19Explorer struct {
 	maxExecs int
 	capped   bool
 	outcomes map[string]bool
+	// the most recent complete schedule (choice indices and the thread picked at each point)
+	lastSchedule []int
+	lastThreads  []int
 }
 
 func (e *c19Explorer) planName() string {
@@ -361,6 +364,11 @@ func (e *c19Explorer) check(x *c19Exec) {
 	}
 	key := fmt.Sprint(x.results)
 	e.outcomes[key] = true
+	e.lastSchedule = x.choices
+	e.lastThreads = e.lastThreads[:0]
+	for _, p := range x.points {
+		e.lastThreads = append(e.lastThreads, p.enabled[p.chosen])
+	}
 	c.Max("max:scheduling_points_per_execution", uint64(len(x.points)))
 	c.Count("shared_accesses", uint64(x.accesses))
 	detail := func() map[string]any {
@@ -568,7 +576,8 @@ func c19Run(c *hx.Ctx, tier, unit string) {
 				c.Note("%s: execution cap %d reached at preemption bound %d; lower bounds completed", e.planName(), e.maxExecs, e.bound)
 			}
 			if pi == 0 {
-				c.Sample(map[string]any{"harness": e.planName(), "executions_at_final_bound": e.execs, "preemption_bound": e.bound})
+				c.Sample(map[string]any{"harness": e.planName(), "executions_at_final_bound": e.execs, "preemption_bound": e.bound,
+					"example_schedule": e.lastSchedule, "example_schedule_threads": e.lastThreads, "scheduling_points_in_example": len(e.lastSchedule)})
 			}
 		}
 	}
